@@ -264,7 +264,7 @@ def build(tier="quick", seed=0):
         add("insert/%s/cte" % shape, lambda a, s=shape: stmt_of("insert", a, q_cte(a, s)))
         add("insert/%s/where_in" % shape, lambda a, s=shape: stmt_of("insert", a, q_where_in(a, s)))
     for shape in ("single", "join_on", "comma", "derived", "left_schema"):
-        add("ctas/%s/union3" % shape, lambda a, s=shape: stmt_of("ctas", a, SetOp("UNION", q_union(a, s).branches + [q_plain(a, "alias_as") if False else Sel([Item(Col(0, "cq")) for _ in q_plain(Alloc(), s).items], [J("first", Tab(a.t()))])])))
+        add("ctas/%s/union3" % shape, lambda a, s=shape: stmt_of("ctas", a, SetOp("UNION", q_union(a, s).branches + [q_plain(a, "alias_as") if False else Sel([Item(Col(0, "c" + "qrs"[n])) for n, _ in enumerate(q_plain(Alloc(), s).items)], [J("first", Tab(a.t()))])])))
         add("insert/%s/union_paren" % shape, lambda a, s=shape: stmt_of("insert", a, q_union(a, s, paren=True)))
         add("insert/%s/cte_first" % shape, lambda a, s=shape: stmt_of("insert", a, q_cte(a, s), cte_first=True))
         add("insert/%s/cte_alias_join" % shape, lambda a, s=shape: stmt_of("insert", a, q_cte_alias_join(a, s)))
@@ -307,6 +307,23 @@ def build(tier="quick", seed=0):
     add("insert/scalar_in_having", lambda a: stmt_of("insert", a, _having(a)))
     add("insert/scalar_in_case", lambda a: stmt_of("insert", a, Sel([Item(Case([(Col(0, "ca"), Scalar(Sel([Item(Func("max", [Col(0, "cb")]))], [J("first", Tab(a.t()))])))], other=Lit("0")), alias="cm")], [J("first", Tab(a.t(), alias=a.a()))])))
     add("insert/scalar_in_function", lambda a: stmt_of("insert", a, Sel([Item(Func("coalesce", [Scalar(Sel([Item(Func("max", [Col(0, "cb")]))], [J("first", Tab(a.t()))])), Lit("0")]), alias="cm")], [J("first", Tab(a.t(), alias=a.a()))])))
+    # calibrated shapes: a literal column in the first UNION branch; the same bare table name under two schemas
+    add("insert/union_literal_first", lambda a: stmt_of("insert", a, SetOp("UNION ALL", [
+        Sel([Item(Lit("1"), alias="cx"), Item(Col(0, "ca"))], [J("first", Tab(a.t(), alias=a.a()))]),
+        Sel([Item(Col(0, "cb")), Item(Col(0, "cc"))], [J("first", Tab(a.t(), alias=a.a()))])])))
+    add("insert/union_literal_second", lambda a: stmt_of("insert", a, SetOp("UNION ALL", [
+        Sel([Item(Col(0, "ca")), Item(Col(0, "cb"))], [J("first", Tab(a.t(), alias=a.a()))]),
+        Sel([Item(Lit("1")), Item(Col(0, "cc"))], [J("first", Tab(a.t(), alias=a.a()))])])))
+    add("insert/union_function_first", lambda a: stmt_of("insert", a, SetOp("UNION", [
+        Sel([Item(Func("max", [Col(0, "ca")]), alias="cx"), Item(Col(0, "cb"))], [J("first", Tab(a.t()))], group=True),
+        Sel([Item(Col(0, "cc")), Item(Col(0, "cd"))], [J("first", Tab(a.t()))])])))
+
+    def same_bare(a, aliased):
+        t = a.t()
+        return stmt_of("insert", a, Sel([Item(Col(0, "ca")), Item(Col(1, "cb"))],
+                                        [J("first", Tab(t, schema=a.s(), alias=a.a() if aliased else None)),
+                                         J("JOIN", Tab(t, schema=a.s(), alias=a.a() if aliased else None), "on")]))
+    add("insert/same_bare_name_two_schemas_aliased", lambda a: same_bare(a, True))
     for sa in (False, True):
         add("update/from%s" % ("_alias" if sa else ""), lambda a, sa=sa: Stmt("update", target=Tab(a.t()), extra={"src": Tab(a.t(), alias=a.a() if sa else None), "sets": [("ca", "cb"), ("cc", "cd")]}))
         add("merge/table%s" % ("_alias" if sa else ""), lambda a, sa=sa: Stmt("merge", target=Tab(a.t()), extra={"src": Tab(a.t(), alias=a.a() if sa else None), "talias": a.a() if sa else None, "update": [("ca", "cb")], "insert": (["ca", "cc"], ["cb", "cd"])}))
